@@ -2,6 +2,8 @@ import BlockModes.Impl.Mem
 import BlockModes.Lemmas.Xor
 import BlockModes.Lemmas.MemCtsApi
 import BlockModes.Lemmas.MemWrapper
+import BlockModes.Lemmas.MemAsync
+import BlockModes.Thm.C03
 /-
   C12 — in-place and buffer-to-buffer operation give identical results.
 
@@ -243,6 +245,74 @@ theorem cores_are_length_regular (C : Cipher) (hC : C.Valid) (f : Spec.Flavor) (
     LenCore (Belt.core C) (fun _ => True) ∧
     LenCore (OfbCore.core C) (fun iv => iv.length = C.bs) :=
   ⟨ctr_lenCore C hC f, belt_lenCore C hC hbs, ofb_lenCore C hC⟩
+
+/-! ### the `AsyncStreamCipher` one-shots (`encrypt`, `decrypt`, `*_b2b`, `*_inout` of cfb-mode and cfb8)
+
+  `Impl/MemAsync.lean` mirrors `encrypt_inout` / `decrypt_inout` on the flat in/out buffer: the full blocks through
+  the `BlocksCtx` loops (for `cfb_mode::Decryptor` the hand-written parallel body, any width), the tail through a
+  local zero block.  Step facts needed: each backend body is length-preserving on a state of one block. -/
+
+open Impl.MemCts in
+theorem cfbEnc_stepOk (C : Cipher) (hC : C.Valid) : StepOk (fun iv : Bytes => iv.length = C.bs) (Cfb.encBlock C) C.bs := by
+  intro s b hs hb
+  have h1 : (xorB b s).length = C.bs := by simp [hs, hb]
+  exact ⟨h1, hC.enc_len _ h1⟩
+
+open Impl.MemCts in
+theorem cfbDec_stepOk (C : Cipher) (hC : C.Valid) : StepOk (fun iv : Bytes => iv.length = C.bs) (Cfb.decBlock C) C.bs := by
+  intro s b hs hb
+  exact ⟨by simp [Cfb.decBlock, hs, hb], hC.enc_len _ hb⟩
+
+open Impl.MemCts in
+theorem cfb8Enc_stepOk (C : Cipher) (hC : C.Valid) : StepOk (fun iv : Bytes => iv.length = C.bs) (Cfb8.encBlock C) 1 := by
+  intro s b hs hb
+  have hk := hC.enc_len s hs
+  have hpos := hC.bs_pos
+  refine ⟨?_, ?_⟩
+  · simp only [Cfb8.encBlock, xorB_length, List.length_take, hk, hb]; omega
+  · simp only [Cfb8.encBlock, Cfb8.shift, List.length_append, List.length_drop, List.length_cons, List.length_nil]; omega
+
+open Impl.MemCts in
+theorem cfb8Dec_stepOk (C : Cipher) (hC : C.Valid) : StepOk (fun iv : Bytes => iv.length = C.bs) (Cfb8.decBlock C) 1 := by
+  intro s b hs hb
+  have hk := hC.enc_len s hs
+  have hpos := hC.bs_pos
+  refine ⟨?_, ?_⟩
+  · simp only [Cfb8.decBlock, xorB_length, List.length_take, hk, hb]; omega
+  · simp only [Cfb8.decBlock, Cfb8.shift, List.length_append, List.length_drop, List.length_cons, List.length_nil]; omega
+
+open Impl.MemAsync Glue in
+/-- **one-shot CFB and CFB-8, every message length, every width of the parallel decryptor**: in place on `m`, and
+    from `m` into an output buffer holding arbitrary `g`, the call succeeds and writes the same bytes — those of the
+    value-level mirror `Glue.asyncInOut` that C01, C03, C08 and C14 are about. -/
+theorem async_oneshot_alias_indep (C : Cipher) (hC : C.Valid) (w : Nat) (iv : Bytes) (hiv : iv.length = C.bs)
+    (m g : Bytes) (hg : g.length = m.length) :
+    (∃ a b, asyncMem 1 C.bs (Cfb.encBlock C) (defaultPar (Cfb.encBlock C)) (Cfb.init C iv) (IOBuf.inplace m) = some a ∧
+        asyncMem 1 C.bs (Cfb.encBlock C) (defaultPar (Cfb.encBlock C)) (Cfb.init C iv) (IOBuf.b2b m g) = some b ∧
+        a.out = b.out ∧ a.out = asyncInOut C.bs (Cfb.encBlocks C w) (Cfb.encBlock C) (Cfb.init C iv) m) ∧
+    (∃ a b, asyncMem w C.bs (Cfb.decBlock C) (Cfb.decPar C) (Cfb.init C iv) (IOBuf.inplace m) = some a ∧
+        asyncMem w C.bs (Cfb.decBlock C) (Cfb.decPar C) (Cfb.init C iv) (IOBuf.b2b m g) = some b ∧
+        a.out = b.out ∧ a.out = asyncInOut C.bs (Cfb.decBlocks C w) (Cfb.decBlock C) (Cfb.init C iv) m) ∧
+    (∃ a b, asyncMem 1 1 (Cfb8.encBlock C) (defaultPar (Cfb8.encBlock C)) (Cfb8.init C iv) (IOBuf.inplace m) = some a ∧
+        asyncMem 1 1 (Cfb8.encBlock C) (defaultPar (Cfb8.encBlock C)) (Cfb8.init C iv) (IOBuf.b2b m g) = some b ∧
+        a.out = b.out ∧ a.out = asyncInOut 1 (Cfb8.encBlocks C w) (Cfb8.encBlock C) (Cfb8.init C iv) m) ∧
+    (∃ a b, asyncMem 1 1 (Cfb8.decBlock C) (defaultPar (Cfb8.decBlock C)) (Cfb8.init C iv) (IOBuf.inplace m) = some a ∧
+        asyncMem 1 1 (Cfb8.decBlock C) (defaultPar (Cfb8.decBlock C)) (Cfb8.init C iv) (IOBuf.b2b m g) = some b ∧
+        a.out = b.out ∧ a.out = asyncInOut 1 (Cfb8.decBlocks C w) (Cfb8.decBlock C) (Cfb8.init C iv) m) := by
+  have hinit : (Cfb.init C iv).length = C.bs := hC.enc_len iv hiv
+  have e1 : Cfb.encBlocks C w = foldBlocks (Cfb.encBlock C) := by
+    funext s l; rw [Cfb.encBlocks, blocksCtx_one]
+  have e2 : Cfb.decBlocks C w = foldBlocks (Cfb.decBlock C) := by
+    funext s l; rw [Cfb.decBlocks, blocksCtx_eq_fold w _ _ (fun s ch _ => C03.cfb_decPar_eq_fold C ch s)]
+  have e3 : Cfb8.encBlocks C w = foldBlocks (Cfb8.encBlock C) := by
+    funext s l; rw [Cfb8.encBlocks, blocksCtx_one]
+  have e4 : Cfb8.decBlocks C w = foldBlocks (Cfb8.decBlock C) := by
+    funext s l; rw [Cfb8.decBlocks, blocksCtx_one]
+  rw [e1, e2, e3, e4]
+  exact ⟨async_alias_indep _ 1 C.bs hC.bs_pos _ _ (cfbEnc_stepOk C hC) (fun _ _ _ => rfl) _ hinit m g hg,
+    async_alias_indep _ w C.bs hC.bs_pos _ _ (cfbDec_stepOk C hC) (fun s ch _ => C03.cfb_decPar_eq_fold C ch s) _ hinit m g hg,
+    async_alias_indep _ 1 1 (by omega) _ _ (cfb8Enc_stepOk C hC) (fun _ _ _ => rfl) _ hiv m g hg,
+    async_alias_indep _ 1 1 (by omega) _ _ (cfb8Dec_stepOk C hC) (fun _ _ _ => rfl) _ hiv m g hg⟩
 
 /-! ### the model can tell the two forms apart -/
 
